@@ -360,7 +360,7 @@ BufferFails(S, o, e, i, b, step) ==
      \cup Chk(EN!VertexBufferOk(b.stride, Range(b.attrs)), "buffer layout of " \o p.ty \o " violates wgpu's vertex buffer rules (stride/offset alignment or bounds)")
 C07(c, o) ==
   IF HasS(c) /\ ValidAll(o) /\ RetOk(o) /\ RejectedAbout(o, "vertex")
-  THEN [ dom |-> TRUE, fails |-> { "the module does not compile and the compiler points at the vertex buffer items: " \o o.compile.errors[1] } ] ELSE
+  THEN [ dom |-> TRUE, fails |-> { "the module does not compile and the compiler points at the vertex buffer items [predicted=" \o ToJson(CP!PredictedCauses(c.S, c.opts)) \o "]: " \o o.compile.errors[1] } ] ELSE
   IF ~(HasS(c) /\ ValidAll(o) /\ RetOk(o) /\ Compiled(o) /\ \E i \in DOMAIN c.S.entries : c.S.entries[i].stage = "vertex" /\ EN!StructParams(c.S.entries[i]) # << >>) THEN NoVerdict ELSE
   LET S == c.S IN
   [ dom |-> TRUE, fails |->
@@ -465,6 +465,8 @@ C10(c, o) ==
   IF HasS(c) /\ ValidAll(o) /\ RetOk(o) /\ c.opts.enc /\ c.opts.mv = "glam" /\ Has(o, "compile") /\ o.compile.outcome = "reject"
      /\ (Range(o.compile.classes) \ CP!Permitted) # {}
      /\ (\A n \in { x \in Emit(c.S) : ST!HostShareable(c.S, x) } : GlamTy(c.S, [ k |-> "struct", name |-> n ]))
+     (* input classes whose compile failure has nothing to do with the host-shareable structs (C01's findings) are outside C10 *)
+     /\ CP!PredictedCauses(c.S, c.opts) \cap {"ImplWithoutType", "DuplicateParam", "KeywordIdent", "NameClash", "EntryConstClash", "ConstShadowsLocal"} = {}
   THEN [ dom |-> TRUE, fails |-> { "the encase + glam module does not compile [predicted=" \o ToJson(CP!PredictedCauses(c.S, c.opts)) \o "]: " \o o.compile.errors[1] } ] ELSE
   IF ~(HasS(c) /\ ValidAll(o) /\ RetOk(o) /\ Compiled(o) /\ c.opts.enc /\ c.opts.mv = "glam") THEN NoVerdict ELSE
   LET evs == SelectSeq(RtOf(o, "encase"), LAMBDA e : e.ev = "rt.encase") IN
@@ -478,7 +480,7 @@ C10(c, o) ==
 (* ------------------------------------------------------------------ C12 *)
 C12(c, o) ==
   IF HasS(c) /\ ValidAll(o) /\ RetOk(o) /\ RejectedAbout(o, "override")
-  THEN [ dom |-> TRUE, fails |-> { "the module does not compile and the compiler points at the override constants: " \o o.compile.errors[1] } ] ELSE
+  THEN [ dom |-> TRUE, fails |-> { "the module does not compile and the compiler points at the override constants [predicted=" \o ToJson(CP!PredictedCauses(c.S, c.opts)) \o "]: " \o o.compile.errors[1] } ] ELSE
   IF ~(HasS(c) /\ ValidAll(o) /\ RetOk(o) /\ Compiled(o) /\ c.S.overrides # << >>) THEN NoVerdict ELSE
   LET S == c.S
       fs == IF Has(o.out, "overrides") THEN o.out.overrides.fields ELSE << >>
@@ -491,10 +493,11 @@ C12(c, o) ==
       \cup { "OverrideConstants cannot be used as documented: " \o m : m \in ProbeFail(o, "overrides") }
       \cup (IF ProbeFail(o, "overrides") = {} /\ [ i \in DOMAIN fs |-> fs[i].name ] = [ i \in DOMAIN S.overrides |-> S.overrides[i].name ] THEN
               Chk(Len(runs) > 0 /\ Len(res) = Len(runs), "PROJ constants() was not exercised")
-              \cup UNION { Chk(CO!MapOk(S, runs[i].assign, runs[i].map), "constants() returned " \o ToJson(runs[i].map) \o " for the assignment " \o ToJson(runs[i].assign) \o "; expected " \o ToJson(CO!ExpectedMap(S, runs[i].assign))) : i \in DOMAIN runs }
+              \cup UNION { Chk(CO!MapOk(S, runs[i].assign, runs[i].map), "constants() returned " \o ToJson(runs[i].map) \o " for the assignment " \o ToJson(runs[i].assign) \o "; expected " \o ToJson(CO!ExpectedMap(S, runs[i].assign))
+                                                                               \o (IF CP!ConstShadowsLocal(S) THEN " [predicted=[\"ConstShadowsLocal\"]]" ELSE "")) : i \in DOMAIN runs }
               \cup (IF Len(res) = Len(runs) THEN
                       UNION { Chk(res[i].ok, "the shader compiler's override resolution rejects the map: " \o (IF Has(res[i], "err") THEN res[i].err ELSE ""))
-                              \cup (IF res[i].ok THEN Chk(CO!ResolvedOk(S, runs[i].assign, res[i].resolved), "an override did not resolve to the supplied value: " \o ToJson(res[i].resolved) \o " for " \o ToJson(runs[i].assign)) ELSE {})
+                              \cup (IF res[i].ok THEN Chk(CO!ResolvedOk(S, runs[i].assign, res[i].resolved), "an override did not resolve to the supplied value: " \o ToJson(res[i].resolved) \o " for " \o ToJson(runs[i].assign) \o (IF CP!ConstShadowsLocal(S) THEN " [predicted=[\"ConstShadowsLocal\"]]" ELSE "")) ELSE {})
                               : i \in DOMAIN runs }
                     ELSE {})
             ELSE {})
@@ -502,7 +505,16 @@ C12(c, o) ==
 
 (* ------------------------------------------------------------------ C15 *)
 ConstSet(o) == { [ name |-> e.name, type_name |-> e.type_name, canon |-> e.canon ] : e \in Range(RtOf(o, "consts")) }
+StaticConstSet(o) == { [ name |-> e.name, type_name |-> e.ty, canon |-> IF Has(e, "canon") THEN e.canon ELSE "?" ] : e \in Range(o.out.consts) }
 C15(c, o) ==
+  (* a constant named like a local binding of the generated functions breaks THOSE functions (C01, Compile.tla ConstShadowsLocal), not the constant *)
+  (* such modules are judged on the static projection (value of the literal as the compiler reads it) *)
+  IF ValidAll(o) /\ RetOk(o) /\ Has(o, "compile") /\ o.compile.outcome = "reject" /\ HasS(c) /\ CP!ConstShadowsLocal(c.S) THEN
+     IF ~Projected(o) THEN NoVerdict ELSE
+     [ dom |-> TRUE, fails |->
+         Chk(StaticConstSet(o) = CO!ExpectedConsts(o.oracle.consts) /\ Len(o.out.consts) = Cardinality(StaticConstSet(o)) /\ \A k \in Range(o.out.consts) : k.pub,
+             "exported constants (static) " \o ToJson(StaticConstSet(o) \ CO!ExpectedConsts(o.oracle.consts)) \o " differ from the constant-evaluated WGSL values " \o ToJson(CO!ExpectedConsts(o.oracle.consts) \ StaticConstSet(o))) ]
+  ELSE
   IF ValidAll(o) /\ RetOk(o) /\ Has(o, "compile") /\ o.compile.outcome = "reject" /\ (\E i \in DOMAIN o.compile.classes : o.compile.classes[i] \notin {"LayoutAssert", "PodPadding"})
   THEN [ dom |-> TRUE, fails |-> { "the exported constants do not type-check: " \o o.compile.errors[1] } ] ELSE
   IF ~(ValidAll(o) /\ RetOk(o) /\ Compiled(o)) THEN NoVerdict ELSE
@@ -512,6 +524,7 @@ C15(c, o) ==
               Chk(ConstSet(o) = CO!ExpectedConsts(o.oracle.consts) /\ Len(RtOf(o, "consts")) = Cardinality(ConstSet(o)),
                   "exported constants " \o ToJson(ConstSet(o) \ CO!ExpectedConsts(o.oracle.consts)) \o " differ from the constant-evaluated WGSL values " \o ToJson(CO!ExpectedConsts(o.oracle.consts) \ ConstSet(o)))
             ELSE {})
+      \cup { "ORACLE no evaluated value for the scalar constant " \o k.name : k \in CO!Unevaluated(o.oracle.consts) }
       \cup (IF HasS(c) THEN
               UNION { LET k == c.S.consts[i] IN
                       IF Has(k, "expect") THEN Chk(\E x \in CO!ExpectedConsts(o.oracle.consts) : x.name = k.name /\ x.canon = k.expect,
